@@ -18,7 +18,7 @@ import vlib
 from vlib import coqlist, zlist, zlit
 
 PROPERTY = "C08"
-MODEL_TARGETS = ["Model/C08StreamerCfg.vo", "Model/C08Check.vo"]
+MODEL_TARGETS = ["Model/C08StreamerCfg.vo", "Model/C08Accels.vo", "Model/C08Check.vo"]
 RULE = ("streamer configurations: 1-5 (rarely 27) streamers, 1-6 temporal dims with n/i/r flags, 1-2 spatial dims, "
         "random ordered subset of the 4 options and 7 extensions; operations: stride patterns with pairwise distinct "
         "marker integers, random zero strides, shorter/longer dimension lists, zero-pointer operands; a case is "
@@ -133,6 +133,152 @@ def read_val(operands, v):
     return ("?", str(owner.name if hasattr(owner, "name") else owner))
 
 
+# ---------------------------------------------------------------- text-built regions (bodies with kernels)
+_XCTX = None
+
+
+def xctx():
+    """AccContext with every dialect / accelerator registered (as snax-opt builds it)."""
+    global _XCTX
+    if _XCTX is None:
+        from snaxc.tools.snax_opt_main import SNAXOptMain
+        _XCTX = SNAXOptMain(args=[str(vlib.VERIF / "notes" / "probe_c08_gemmx_rescale_only.mlir")]).ctx
+    return _XCTX
+
+
+def _ilist(xs):
+    return "[" + ", ".join(str(x) for x in xs) + "]"
+
+
+def region_text(opspec, accelerator, body):
+    """body = {"args": [stream element types], "pre": [lines before the region], "ops": [lines inside]}"""
+    lines = list(body.get("pre", []))
+    names = []
+    for k, kind in enumerate(opspec["operands"]):
+        if kind == "p":
+            lines.append(f'%p{k} = "test.op"() : () -> index')
+        else:
+            lines.append(f"%p{k} = arith.constant {0 if kind == 'z' else 7} : index")
+        names.append(f"%p{k}")
+    pats = ", ".join(f"#snax_stream.stride_pattern<ub = {_ilist(ub)}, ts = {_ilist(ts)}, ss = {_ilist(ss)}>"
+                     for (ub, ts, ss) in opspec["pats"])
+    n = len(names)
+    n_in = max(0, n - 1)
+    args = ", ".join(f"%s{i} : !dart.stream<{t}>" for i, t in enumerate(body["args"]))
+    lines.append(f'"snax_stream.streaming_region"({", ".join(names)}) <{{stride_patterns = [{pats}], '
+                 f'accelerator = "{accelerator}", operandSegmentSizes = array<i32: {n_in}, {n - n_in}>}}> ({{')
+    lines.append(f"^bb0({args}):")
+    lines.extend(body["ops"])
+    lines.append("}) : (" + ", ".join(["index"] * n) + ") -> ()")
+    return "func.func @f() {\n" + "\n".join(lines) + "\nfunc.return\n}\n"
+
+
+def parse_region(text):
+    from xdsl.parser import Parser
+    from snaxc.dialects.snax_stream import StreamingRegionOp
+    mod = Parser(xctx(), text).parse_module()
+    for o in mod.walk():
+        if isinstance(o, StreamingRegionOp):
+            return mod, o
+    raise RuntimeError("no streaming region")
+
+
+def _generic(res, ins, in_types, bb_args, kernel_line, out_elem, yielded):
+    """one dart.generic with a single kernel op"""
+    return [
+        f'{res} = "dart.generic"({", ".join(ins)}) <{{library_call = "x"}}> ({{',
+        f"^bb1({bb_args}):",
+        f"  {kernel_line}",
+        f"  dart.yield {yielded} : {out_elem}",
+        "}) : (" + ", ".join(in_types) + f") -> !dart.stream<{out_elem}>",
+    ]
+
+
+def _rescale_attrs(r):
+    return (f"{{input_zp = {r['zpin']} : i32, output_zp = {r['zpout']} : i32, multiplier = array<i32: "
+            f"{', '.join(map(str, r['mult']))}>, shift = array<i32: {', '.join(map(str, r['shift']))}>, "
+            f"max_int = {r['max']} : i32, min_int = {r['min']} : i32, double_round = {'true' if r['dr'] else 'false'}}}")
+
+
+def gen_rescale(rng, n=None, lens=None):
+    L = rng.choice(lens) if lens else 1
+    return {"zpin": rng.choice([0, 3, -7, 127]), "zpout": rng.choice([0, -4, 5, -128]),
+            "mult": [rng.randrange(1, 2 ** 30) for _ in range(L)], "shift": [rng.randrange(0, 48) for _ in range(L)],
+            "max": rng.choice([127, 100]), "min": rng.choice([-128, -100]), "dr": rng.choice([0, 1])}
+
+
+def xdma_body(kind, nargs, resc=None):
+    """Bodies the xDMA generator distinguishes."""
+    t = {"none": "i32", "testop": "i32", "add_i32": "i32", "add_i64": "i64", "rescale_down": "i32", "rescale_up": "i8"}[kind]
+    args = [t] * nargs
+    if kind == "none":
+        return {"args": args, "ops": []}
+    if kind == "testop":
+        return {"args": args, "ops": [f'%r = "test.op"(%s0) : (!dart.stream<{t}>) -> !dart.stream<{t}>']}
+    if kind in ("add_i32", "add_i64"):
+        ops = _generic("%g", ["%s0", "%s0"], [f"!dart.stream<{t}>"] * 2, f"%a : {t}, %b : {t}, %c : {t}",
+                       f"%k = kernel.add %a, %b : {t}, {t} -> {t}", t, "%k")
+    else:
+        out = "i8" if kind == "rescale_down" else "i32"
+        ops = _generic("%g", ["%s0"], [f"!dart.stream<{t}>"], f"%a : {t}, %c : {out}",
+                       f'%k = "kernel.rescale"(%a) {_rescale_attrs(resc)} : ({t}) -> {out}', out, "%k")
+        t = out
+    return {"args": args, "ops": ops + [f"dart.yield %g : !dart.stream<{t}>"]}
+
+
+def gemmx_body(kind, nargs, zp=(0, 0), resc=None):
+    """kind in mac_i32 qmac_i32 mac_i8 qmac_i8 mac_resc qmac_resc rescale_only other"""
+    args = ["i8", "i8"] + ["i32"] * (nargs - 2)
+    pre = [f"%zpa = arith.constant {zp[0]} : i32", f"%zpb = arith.constant {zp[1]} : i32"]
+    if kind == "rescale_only":
+        args = ["i32"] * nargs
+        ops = _generic("%g", ["%s0"], ["!dart.stream<i32>"], "%a : i32, %c : i8",
+                       f'%k = "kernel.rescale"(%a) {_rescale_attrs(resc)} : (i32) -> i8', "i8", "%k")
+        return {"args": args, "pre": pre, "ops": ops + ["dart.yield %g : !dart.stream<i8>"]}
+    if kind == "other":
+        args = ["i32"] * nargs
+        ops = _generic("%g", ["%s0", "%s0"], ["!dart.stream<i32>"] * 2, "%a : i32, %b : i32, %c : i32",
+                       "%k = kernel.add %a, %b : i32, i32 -> i32", "i32", "%k")
+        return {"args": args, "pre": pre, "ops": ops + ["dart.yield %g : !dart.stream<i32>"]}
+    if kind.startswith("qmac"):
+        ops = _generic("%g", ["%s0", "%s1", "%zpa", "%zpb"], ["!dart.stream<i8>", "!dart.stream<i8>", "i32", "i32"],
+                       "%a : i8, %b : i8, %za : i32, %zb : i32, %c : i32",
+                       "%k = kernel.qmac %a, %b zp_lhs : %za zp_rhs : %zb : i8, i8, i32, i32 -> i32", "i32", "%k")
+    else:
+        ops = _generic("%g", ["%s0", "%s1"], ["!dart.stream<i8>", "!dart.stream<i8>"], "%a : i8, %b : i8, %c : i32",
+                       "%k = kernel.mac %a, %b : i8, i8 -> i32", "i32", "%k")
+    if kind.endswith("_i32"):
+        return {"args": args, "pre": pre, "ops": ops + ["dart.yield %g : !dart.stream<i32>"]}
+    if kind.endswith("_i8"):   # i8 output without a rescale kernel: defaults are used
+        ops += ['%t = "test.op"(%g) : (!dart.stream<i32>) -> !dart.stream<i8>', "dart.yield %t : !dart.stream<i8>"]
+        return {"args": args, "pre": pre, "ops": ops}
+    ops += _generic("%h", ["%g"], ["!dart.stream<i32>"], "%a2 : i32, %c2 : i8",
+                    f'%k2 = "kernel.rescale"(%a2) {_rescale_attrs(resc)} : (i32) -> i8', "i8", "%k2")
+    return {"args": args, "pre": pre, "ops": ops + ["dart.yield %h : !dart.stream<i8>"]}
+
+
+def eval_ssa(operands, v, depth=0):
+    """operand k / integer value of a constant expression built from arith.constant, andi, shli, ori."""
+    from xdsl.dialects import arith
+    from xdsl.dialects.builtin import IntegerAttr
+    for k, o in enumerate(operands):
+        if o is v:
+            return ("o", k)
+    ow = v.owner
+    if isinstance(ow, arith.ConstantOp) and isinstance(ow.value, IntegerAttr):
+        return ("c", ow.value.value.data)
+    if isinstance(ow, (arith.AndIOp, arith.ShLIOp, arith.OrIOp)) and depth < 12:
+        a = eval_ssa(operands, ow.lhs, depth + 1)
+        b = eval_ssa(operands, ow.rhs, depth + 1)
+        if a[0] == "c" and b[0] == "c":
+            if isinstance(ow, arith.AndIOp):
+                return ("c", a[1] & b[1])
+            if isinstance(ow, arith.ShLIOp):
+                return ("c", a[1] << b[1])
+            return ("c", a[1] | b[1])
+    return ("?", getattr(ow, "name", str(ow)))
+
+
 # ---------------------------------------------------------------- generators
 class Markers:
     def __init__(self, start=100):
@@ -206,6 +352,13 @@ def coq_str(s):
     return f'"{s}"%string'
 
 
+def coq_fields(fields, i, every=4):
+    """field names are compared for every `every`-th case (string literals are expensive for Coq to load)"""
+    if i % every:
+        return "None"
+    return "(Some " + coqlist(coq_str(f) for f in fields) + ")"
+
+
 def coq_cfg(spec):
     return coqlist(
         f"mkStreamer {coqlist(FLAGS[f] for f in fl)} {zlist(sp)} "
@@ -251,27 +404,39 @@ def impl_regular(spec, opspec):
     return fields, vals
 
 
-HEADER = ("From Snax Require Import Base.Prelude Model.C08StreamerCfg Model.C08Check.\n"
+HEADER = ("From Snax Require Import Base.Prelude Model.C08StreamerCfg Model.C08Accels Model.C08Check.\n"
           "From Coq Require Import String.\n")
 
 
-def run_groups(name, groups, chunk=40, par=8, header=HEADER):
-    """groups = [(kind, coq test function, [case literal], [meta])]; shards every group into cases files of
-    `chunk` cases, evaluates them in parallel, returns the disagreements."""
-    texts, index = [], []
+def run_groups(name, groups, chunk=80, files=4, header=HEADER):
+    """groups = [(kind, coq test function, [case literal], [meta])]; the cases are cut into chunks which are
+    spread over `files` cases files (each coqc start costs seconds), evaluated in parallel."""
+    chunks = []
     for kind, test, cases, meta in groups:
         for a in range(0, len(cases), chunk):
-            part = cases[a:a + chunk]
-            texts.append(header + f"Definition cases := {coqlist(part)}.\nEval vm_compute in failing ({test}) cases.\n")
-            index.append((kind, a, cases, meta))
+            chunks.append((kind, test, a, cases[a:a + chunk], cases, meta))
+    chunks.sort(key=lambda c: -sum(len(x) for x in c[3]))
+    bins = [[] for _ in range(max(1, min(files, len(chunks))))]
+    sizes = [0] * len(bins)
+    for c in chunks:
+        k = sizes.index(min(sizes))
+        bins[k].append(c)
+        sizes[k] += sum(len(x) for x in c[3])
+    texts = []
+    for bn in bins:
+        t = header
+        for j, (kind, test, a, part, _, _) in enumerate(bn):
+            t += f"Definition cases_{j} := {coqlist(part)}.\nEval vm_compute in failing ({test}) cases_{j}.\n"
+        texts.append(t)
     dis = []
-    for (ok, out), (kind, a, cases, meta) in zip(vlib.coq_eval_many(name, texts, timeout=900, par=par), index):
+    for (ok, out), bn in zip(vlib.coq_eval_many(name, texts, timeout=1200, par=len(bins)), bins):
         lists = vlib.parse_all_eval_lists(out)
-        if not ok or len(lists) != 1:
-            dis.append({"name": f"cases-file:{kind}", "detail": out[-2000:]})
+        if not ok or len(lists) != len(bn):
+            dis.append({"name": "cases-file:" + ",".join(sorted({c[0] for c in bn})), "detail": out[-2000:]})
             continue
-        for idx in lists[0]:
-            dis.append({"name": f"L1:{kind}", "case": meta[a + idx], "coq_case": cases[a + idx][:800]})
+        for bad, (kind, test, a, part, cases, meta) in zip(lists, bn):
+            for idx in bad:
+                dis.append({"name": f"L1:{kind}", "case": meta[a + idx], "coq_case": cases[a + idx][:800]})
     return dis
 
 
@@ -293,13 +458,216 @@ def correspondence(ctx):
         spec = gen_cfg(rng, big=(i % 97 == 96))
         opspec = gen_op(rng, spec)
         fields, vals = impl_regular(spec, opspec)
-        cases.append(f"({coq_cfg(spec)}, {coq_op(opspec)}, {coqlist(coq_str(f) for f in fields)}, {coq_vals(vals)})")
+        cases.append(f"({coq_cfg(spec)}, {coq_op(opspec)}, {coq_fields(fields, i)}, {coq_vals(vals)})")
         meta.append({"cfg": spec, "op": opspec, "fields": fields, "vals": vals})
         ctx.count({"kind": "regular", "cfg": spec, "op": opspec, "raised": vals is None}, nontrivial(spec),
                   f"reg{spec}{opspec}", "regular" if vals is not None else "regular-raises")
     groups.append(("regular", "chk_regular", cases, meta))
 
+    # snax_alu with arbitrary configurations
+    cases, meta = [], []
+    for i in range(ctx.n(40, 400)):
+        spec = gen_cfg(rng)
+        opspec = gen_op(rng, spec)
+        fields, vals = impl_alu(spec, opspec)
+        cases.append(f"({coq_cfg(spec)}, {coq_op(opspec)}, {coq_fields(fields, i)}, {coq_vals(vals)})")
+        meta.append({"acc": "snax_alu", "cfg": spec, "op": opspec, "fields": fields, "vals": vals})
+        ctx.count({"kind": "alu", "cfg": spec, "op": opspec}, nontrivial(spec), f"alu{spec}{opspec}", "alu")
+    groups.append(("alu", "chk_alu", cases, meta))
+
+    # xDMA
+    cases, meta = [], []
+    for i in range(ctx.n(80, 800)):
+        spec = gen_cfg(rng, xdma=True) if i % 5 else list(XDMA_DEFAULT)
+        opspec = gen_op(rng, spec, valid_only=(i % 3 != 0))
+        if len(opspec["operands"]) < 1 or len(opspec["pats"]) != len(opspec["operands"]):
+            opspec = gen_op(rng, spec, valid_only=True)
+        kind = rng.choice(XDMA_BODIES)
+        resc = gen_rescale(rng)
+        fields, vals, matches = impl_xdma(spec, opspec, kind, resc)
+        cases.append(f"({coq_cfg(spec)}, {coq_op(opspec)}, {coq_xbody(kind, matches)}, "
+                     f"{coq_fields(fields, i)}, {coq_vals(vals)})")
+        meta.append({"acc": "snax_xdma", "cfg": spec, "op": opspec, "body": kind, "fields": fields, "vals": vals})
+        ctx.count({"kind": "xdma", "cfg": spec, "op": opspec, "body": kind}, True, f"xd{spec}{opspec}{kind}", "xdma:" + kind)
+    groups.append(("xdma", "chk_xdma", cases, meta))
+
+    # gemmx
+    cases, meta = [], []
+    for i in range(ctx.n(60, 600)):
+        spec, n, opspec, kind, zp, resc = gen_gemmx_case(rng, i)
+        fields, vals = impl_gemmx(spec, n, opspec, kind, zp, resc)
+        cases.append(f"({coq_cfg(spec)}, {zlit(n)}, {coq_op(opspec)}, {coq_gbody(kind, resc)}, ({zlit(zp[0])}, {zlit(zp[1])}), "
+                     f"{coq_fields(fields, i)}, {coq_vals(vals)})")
+        meta.append({"acc": "snax_gemmx", "cfg": spec, "n": n, "op": opspec, "body": kind, "zp": zp, "rescale": resc,
+                     "fields": fields, "vals": vals})
+        ctx.count({"kind": "gemmx", "n": n, "body": kind, "op": opspec}, True, f"gx{spec}{n}{opspec}{kind}{resc}", "gemmx:" + kind)
+    groups.append(("gemmx", "chk_gemmx", cases, meta))
+
+    # hwpe
+    fields, hv = impl_hwpe()
+    lit = {"ptr": lambda k: f"HPtr {k}", "dim0": lambda k: "HDim0", "one": lambda k: "HOne", "?": lambda k: "HPtr 99"}
+    groups.append(("hwpe", "chk_hwpe", [f"({coqlist(coq_str(f) for f in fields)}, {coqlist(lit[a](b) for a, b in hv)})"],
+                   [{"acc": "snax_hwpe_mult", "fields": fields, "vals": hv}]))
+    ctx.count({"kind": "hwpe", "fields": fields, "vals": hv}, True, "hwpe", "hwpe")
+
     return run_groups("c08", groups)
+
+
+XDMA_BODIES = ["none", "testop", "add_i32", "add_i64", "rescale_down", "rescale_up"]
+XDMA_DEFAULT = [("nnnnn", [8], ["EMaxPool", "EAdd", "EAddLong", "ERescaleDown", "ERescaleUp", "OChanMask"]),
+                ("nnnnn", [8], ["EMemSet", "ETranspose", "OChanMask", "OByteMask"])]
+GEMMX_DEFAULT = [("nnnnnn", [8], ["ETranspose", "OAddrRemap"]), ("nnn", [8], ["ETranspose", "OAddrRemap"]),
+                 ("rnn", [8], ["OAddrRemap"]), ("rnn", [8, 4], ["OChanMask", "OAddrRemap", "OBroadcast"]),
+                 ("rnn", [8, 4], ["OAddrRemap"])]
+GEMMX_BODIES = ["mac_i32", "qmac_i32", "mac_i8", "qmac_i8", "mac_resc", "qmac_resc", "rescale_only", "other"]
+
+
+def impl_alu(spec, opspec):
+    from snaxc.accelerators.snax_alu import SNAXAluAccelerator
+    acc = SNAXAluAccelerator(mk_cfg(spec))
+    op, _ = mk_region(opspec, "snax_alu")
+    try:
+        vals = read_vals(op, acc._generate_stream_setup_vals(op))
+    except (IndexError, AssertionError):
+        vals = None
+    return list(acc.fields), vals
+
+
+def xdma_matches(kind_body_op, spec):
+    """[(ext kind, csr values)] for every extension kind whose supported kernel matches the body kernel."""
+    from snaxc.dialects import dart
+    oc = opt_classes()
+    first = kind_body_op.body.block.first_op
+    if not isinstance(first, dart.GenericOp):
+        return None
+    kernel_op = first.body.block.first_op
+    out = []
+    for e in EXT_KINDS:
+        ext = oc[e]()
+        if ext.supported_kernel is not None and ext.supported_kernel.is_same_kernel(kernel_op):
+            out.append((e, [int(x) for x in ext.get_csr_values(kernel_op)]))
+    return out
+
+
+def impl_xdma(spec, opspec, kind, resc):
+    from snaxc.accelerators.snax_xdma import SNAXXDMAAccelerator
+    acc = SNAXXDMAAccelerator(mk_cfg(spec, xdma=True))
+    _, op = parse_region(region_text(opspec, "snax_xdma", xdma_body(kind, len(opspec["operands"]), resc)))
+    matches = xdma_matches(op, spec)
+    try:
+        vals = read_vals(op, acc._generate_stream_setup_vals(op))
+    except (IndexError, AssertionError):
+        vals = None
+    return list(acc.fields), vals, matches
+
+
+def coq_xbody(kind, matches):
+    if matches is None:
+        return "XOther"
+    return "(XGeneric " + coqlist(f"({e}, {zlist(v)})" for e, v in matches) + ")"
+
+
+def gen_gemmx_case(rng, i):
+    if i % 3 == 0:
+        spec = list(GEMMX_DEFAULT)
+    else:
+        spec = gen_cfg(rng)
+        while len(spec) < 3:
+            spec = spec + gen_cfg(rng)
+        spec = spec[:5]
+    n = rng.choice([8, 8, 8, 4, 16, 1, 6, 12])
+    opspec = gen_op(rng, spec, valid_only=True)
+    # small bounds so that K = prod(A bounds) // M is meaningful
+    pats = []
+    for (ub, ts, ss) in opspec["pats"]:
+        ub = [rng.choice([1, 2, 3, 4]) for _ in ub]
+        pats.append((ub, ts, ss))
+    if rng.random() < 0.1 and pats:
+        k = rng.randrange(len(pats))
+        pats[k] = ([0] * len(pats[k][0]), [0] * len(pats[k][0]), pats[k][2])   # disabled streamer
+    opspec = {"pats": pats, "operands": opspec["operands"]}
+    kind = rng.choice(GEMMX_BODIES)
+    zp = (rng.choice([0, 5, -3, 127, -128]), rng.choice([0, 9, -1]))
+    resc = gen_rescale(rng, n, lens=[1, 1, n, 2 * n, 3, max(1, n - 1)])
+    return spec, n, opspec, kind, zp, resc
+
+
+def impl_gemmx(spec, n, opspec, kind, zp, resc):
+    from snaxc.accelerators.snax_gemmx import SNAXGEMMXAccelerator
+    acc = SNAXGEMMXAccelerator(mk_cfg(spec), 8, n, 8)
+    _, op = parse_region(region_text(opspec, "snax_gemmx", gemmx_body(kind, len(opspec["operands"]), zp, resc)))
+    operands = list(op.operands)
+    from snaxc.dialects import kernel
+    for o in op.walk():   # the attribute values as xDSL parsed them (e.g. `true : i1` is -1)
+        if isinstance(o, kernel.RescaleOp):
+            resc.update({"max": o.max_int.value.data, "min": o.min_int.value.data, "dr": o.double_round.value.data,
+                         "zpin": o.input_zp.value.data, "zpout": o.output_zp.value.data,
+                         "shift": list(o.shift.get_values()), "mult": list(o.multiplier.get_values())})
+    try:
+        args, _ = acc._generate_setup_vals(op)
+        vals = [eval_ssa(operands, v) for _, v in args]
+    except (IndexError, AssertionError, ValueError, ZeroDivisionError, NotImplementedError):
+        vals = None
+    return list(acc.fields), vals
+
+
+def coq_rescale(r):
+    return (f"(mkRescale {zlit(r['max'])} {zlit(r['min'])} {zlit(r['dr'])} {zlist(r['shift'])} {zlist(r['mult'])} "
+            f"{zlit(r['zpin'])} {zlit(r['zpout'])})")
+
+
+def coq_gbody(kind, resc):
+    if kind == "other":
+        return "GBOther"
+    if kind == "rescale_only":
+        return f"(GBRescale {coq_rescale(resc)})"
+    q = "true" if kind.startswith("qmac") else "false"
+    if kind.endswith("_i32"):
+        return f"(GBMac {q} false None)"
+    if kind.endswith("_i8"):
+        return f"(GBMac {q} true None)"
+    return f"(GBMac {q} true (Some {coq_rescale(resc)}))"
+
+
+HWPE_TEXT = """
+func.func public @simple_mult(%A: memref<?xi32>, %B: memref<?xi32>, %D: memref<?xi32>) -> () {
+  linalg.generic { indexing_maps = [], iterator_types = ["parallel"], library_call = "snax_hwpe_mult" }
+  ins(%A, %B: memref<?xi32>, memref<?xi32>) outs(%D: memref<?xi32>) {
+  ^bb0(%a: i32, %b: i32, %d: i32):
+    %r0 = arith.muli %a, %b : i32
+    linalg.yield %r0 : i32
+  }
+  func.return
+}
+"""
+
+
+def impl_hwpe():
+    """field names and a classification of each generated value by the computation that produces it."""
+    from xdsl.dialects import arith, linalg, memref
+    from xdsl.parser import Parser
+    from snaxc.accelerators.snax_hwpe_mult import SNAXHWPEMultAccelerator
+    mod = Parser(xctx(), HWPE_TEXT).parse_module()
+    g = [o for o in mod.walk() if isinstance(o, linalg.GenericOp)][0]
+    acc = SNAXHWPEMultAccelerator()
+    vals = acc._generate_setup_vals(g)
+    operands = list(g.operands)
+    out = []
+    for _, v in vals:
+        ow = v.owner
+        kind = ("?", 0)
+        if isinstance(ow, arith.ConstantOp):
+            kind = ("one", 0) if ow.value.value.data == 1 else ("?", 0)
+        elif isinstance(ow, arith.IndexCastOp):
+            src = ow.input.owner
+            if isinstance(src, memref.DimOp) and src.source is operands[0] and \
+                    isinstance(src.index.owner, arith.ConstantOp) and src.index.owner.value.value.data == 0:
+                kind = ("dim0", 0)
+            elif isinstance(src, arith.AddiOp) and isinstance(src.lhs.owner, memref.ExtractAlignedPointerAsIndexOp):
+                ref = src.lhs.owner.source
+                kind = ("ptr", [k for k, o in enumerate(operands) if o is ref][0])
+        out.append(kind)
+    return list(acc.fields), out
 
 
 # ---------------------------------------------------------------- L2: the property on the implementation
@@ -385,39 +753,312 @@ def l2_alu(spec, opspec):
     return check_setup(names, got, spec, opspec, extra)
 
 
+# ---- xDMA
+XNAME_RE = re.compile(r"^([a-z])_(enabled_chan|enabled_byte|bypass|([a-z_]+?)_(\d+))$")
+
+
+def xdma_extra(spec, opspec, matches):
+    S, X = _impl()
+    oc = opt_classes()
+    by_name = {oc[e]().name: e for e in EXT_KINDS}
+
+    def extra(name):
+        m = XNAME_RE.match(name)
+        if not m:
+            return None
+        s = string.ascii_lowercase.index(m.group(1))
+        zero = opspec["operands"][s] == "z"
+        if m.group(2) in ("enabled_chan", "enabled_byte"):
+            return ("c", 0 if zero else -1)
+        exts = [o for o in spec[s][2] if o.startswith("E")]
+        md = dict(matches or [])
+        if m.group(2) == "bypass":
+            return ("c", sum(2 ** i for i, e in enumerate(exts) if e in md))
+        e = by_name.get(m.group(3))
+        if e is None:
+            return None
+        i = int(m.group(4))
+        return ("c", md[e][i] if e in md and i < len(md[e]) else 0)
+
+    return extra
+
+
+def xdma_klass(spec, opspec, matches):
+    """the decidable classes of the known finding F7 (Coq: safe_xdmab / zero_uniformb)"""
+    oc = opt_classes()
+    if any("OChanMask" not in opts for (_, _, opts) in spec):
+        return "not_safe_xdma"
+    if matches is None and any(oc[o]().csr_length != 1 for (_, _, opts) in spec for o in opts if o.startswith("E")):
+        return "not_safe_xdma"
+    zs = [k == "z" for k in opspec["operands"]]
+    if any(z != zs[-1] for z in zs):
+        return "xdma_zero_not_uniform"
+    return None
+
+
+def l2_xdma(spec, opspec, kind, resc, through_pass=False):
+    from snaxc.accelerators.snax_xdma import SNAXXDMAAccelerator
+    acc = SNAXXDMAAccelerator(mk_cfg(spec, xdma=True))
+    text = region_text(opspec, "snax_xdma", xdma_body(kind, len(opspec["operands"]), resc))
+    if through_pass:
+        names, got, matches = lower_through_pass(acc, text, xdma_matches)
+    else:
+        _, op = parse_region(text)
+        matches = xdma_matches(op, spec)
+        names, got = lower_with(acc, op)
+    probs = check_setup(names, got, spec, opspec, xdma_extra(spec, opspec, matches))
+    return probs, xdma_klass(spec, opspec, matches)
+
+
+def lower_through_pass(acc, text, pre=None):
+    """module = accelerator op + function; the real convert-linalg-to-accfg pass (default configuration of the
+    registered accelerator) and the module verifier (SetupOp.verify_)."""
+    from xdsl.parser import Parser
+    from snaxc.dialects import accfg
+    from snaxc.dialects.snax_stream import StreamingRegionOp
+    from snaxc.transforms.convert_linalg_to_accfg import ConvertLinalgToAccPass
+    mod = Parser(xctx(), str(acc.generate_acc_op()) + "\n" + text).parse_module()
+    region = [o for o in mod.walk() if isinstance(o, StreamingRegionOp)][0]
+    extra = pre(region, None) if pre else None
+    operands = list(region.operands)
+    ConvertLinalgToAccPass().apply(xctx(), mod)
+    mod.verify()
+    setup = [o for o in mod.walk() if isinstance(o, accfg.SetupOp)][0]
+    names = [p.data for p in setup.param_names]
+    got = [eval_ssa(operands, v) for v in setup.values]
+    return names, got, extra
+
+
+# ---- gemmx
+def _prod(xs):
+    r = 1
+    for x in xs:
+        r *= x
+    return r
+
+
+def gemmx_extra(n, opspec, kind, zp, resc):
+    """What each gemmx kernel register must receive, written from the register descriptions in snax_gemmx.py
+    (`subtractions: zp_b (i8) | zp_a (i8)`, `csr0: min_int | max_int | out_zp | in_zp`, 4 shifts per CSR...)."""
+    pats = opspec["pats"]
+    b = lambda x: x & 255
+    if kind == "rescale_only":
+        i8, K, M = True, 1, _prod(pats[0][0])
+        loop, byp, sub = M, 0, 0
+        r = dict(resc, shift=[resc["shift"][0]] * (4 * ((n + 3) // 4)), mult=[resc["mult"][0]] * n)
+    else:
+        i8 = not kind.endswith("_i32")
+        lp = pats[2] if i8 else pats[-1]
+        M = _prod(bd for bd, st in zip(lp[0], lp[1]) if st != 0)
+        K = _prod(pats[0][0]) // M
+        loop, byp = (M, 0) if i8 else (0, 1)
+        za, zb = zp if kind.startswith("qmac") else (0, 0)
+        sub = b(za) | (b(zb) << 8)
+        if kind.endswith("_resc"):
+            r = dict(resc)
+            if len(r["shift"]) == 1:
+                r["shift"] = r["shift"] * n
+            if len(r["mult"]) == 1:
+                r["mult"] = r["mult"] * n
+        elif i8:
+            r = {"max": 127, "min": -128, "dr": 0, "shift": [9] * n, "mult": [1] * n, "zpin": 0, "zpout": 0}
+        else:
+            r = None
+
+    def extra(name):
+        if name == "K":
+            return ("c", K)
+        if name == "N":
+            return ("c", 1)
+        if name == "M":
+            return ("c", M)
+        if name == "subtractions":
+            return ("c", sub)
+        if name == "temporal_loop_bound":
+            return ("c", loop)
+        if name == "bypassSIMD":
+            return ("c", byp)
+        if name == "csr0":
+            return ("c", 0 if r is None else (b(r["min"]) << 24) | (b(r["max"]) << 16) | (b(r["zpout"]) << 8) | b(r["zpin"]))
+        if name == "csr1":
+            return ("c", 0 if r is None else r["dr"])
+        m = re.match(r"^(shift|mult)_(\d+)$", name)
+        if not m:
+            return None
+        i = int(m.group(2))
+        if m.group(1) == "mult":
+            return ("c", 1 if r is None else r["mult"][i])
+        if r is None:
+            return ("c", 0)
+        c = r["shift"][4 * i:4 * i + 4]
+        return ("c", c[0] | (c[1] << 8) | (c[2] << 16) | (c[3] << 24))
+
+    return extra
+
+
+def gemmx_supported(n, kind, resc):
+    """bodies / parameters the gemmx generator is specified for (others raise loudly)"""
+    if kind == "other":
+        return False
+    if kind in ("mac_i8", "qmac_i8") and n % 4:
+        return False
+    if kind.endswith("_resc"):
+        ls, lm = len(resc["shift"]), len(resc["mult"])
+        ls = n if ls == 1 else ls
+        lm = n if lm == 1 else lm
+        return ls % 4 == 0 and ls >= n and lm >= n
+    return True
+
+
+def l2_gemmx(spec, n, opspec, kind, zp, resc, through_pass=False):
+    from snaxc.accelerators.snax_gemmx import SNAXGEMMXAccelerator
+    acc = SNAXGEMMXAccelerator(mk_cfg(spec), 8, n, 8)
+    text = region_text(opspec, "snax_gemmx", gemmx_body(kind, len(opspec["operands"]), zp, resc))
+    resc = dict(resc)
+    resc["dr"] = -1 if resc["dr"] else 0     # `true : i1` is the integer -1 in xDSL; csr1 receives that value
+    if through_pass:
+        names, got, _ = lower_through_pass(acc, text)
+    else:
+        _, op = parse_region(text)
+        operands = list(op.operands)
+        from snaxc.dialects import accfg
+        ops = acc.convert_to_acc_ops(op)
+        setup = [o for o in ops if isinstance(o, accfg.SetupOp)][0]
+        names = [p.data for p in setup.param_names]
+        got = [eval_ssa(operands, v) for v in setup.values]
+    return check_setup(names, got, spec, opspec, gemmx_extra(n, opspec, kind, zp, resc))
+
+
+def gen_gemmx_l2(rng, i):
+    """valid gemmx cases: M divides prod(A bounds) is not needed for the register check"""
+    while True:
+        spec, n, opspec, kind, zp, resc = gen_gemmx_case(rng, i)
+        if not gemmx_supported(n, kind, resc):
+            continue
+        pats = opspec["pats"]
+        if len(pats) < 3 or not pats[0][0]:
+            continue
+        lp = pats[2] if not kind.endswith("_i32") else pats[-1]
+        if kind != "rescale_only" and _prod(bd for bd, st in zip(lp[0], lp[1]) if st != 0) == 0:
+            continue
+        return spec, n, opspec, kind, zp, resc
+
+
 def search(ctx, deep=False):
     rng = ctx.rng
     fails = []
-    n = ctx.n(150, 2000) * (3 if deep else 1)
-    for i in range(n):
+    mult = 3 if deep else 1
+
+    def run(acc, key, fn, case, klass_of=None):
+        klass = None
+        try:
+            r = fn()
+            if isinstance(r, tuple):
+                probs, klass = r
+            else:
+                probs = r
+        except Exception as e:
+            probs = [{"what": "raised", "error": repr(e)[:300]}]
+            klass = klass_of() if klass_of else None
+        ctx.count(dict(case, L2=key), True, f"{key}{case}", "L2-" + key)
+        for p in probs:
+            fails.append(dict(case, what=p["what"], acc=acc, detail=p, klass=klass))
+
+    for i in range(ctx.n(120, 1500) * mult):
         spec = gen_cfg(rng)
         opspec = gen_op(rng, spec, valid_only=True)
         if not opspec["pats"][0][0]:
-            opspec["pats"][0] = ([7], [9], opspec["pats"][0][2])   # alu reads upper_bounds[0] of operand 0
-            if spec[0][0][0] == "i":
-                opspec["pats"][0] = ([7], [0], opspec["pats"][0][2])
-        try:
-            probs = l2_alu(spec, opspec)
-        except Exception as e:
-            probs = [{"what": "raised", "error": repr(e)[:300]}]
-        ctx.count({"L2": "alu-custom-cfg", "cfg": spec, "op": opspec}, nontrivial(spec), f"l2alu{spec}{opspec}", "L2-alu")
-        for p in probs:
-            fails.append({"what": p["what"], "acc": "snax_alu", "cfg": spec, "op": opspec, "detail": p, "klass": None})
+            opspec["pats"][0] = ([7], [0 if spec[0][0][0] == "i" else 9], opspec["pats"][0][2])
+        run("snax_alu", "alu", lambda: l2_alu(spec, opspec), {"cfg": spec, "op": opspec})
+
+    # registered default accelerators through the real pass + verifier
+    from snaxc.accelerators.snax_alu import SNAXAluAccelerator
+    for i in range(ctx.n(10, 100) * mult):
+        spec = [("n", [4], [])] * 3
+        opspec = gen_op(rng, spec, valid_only=True)
+        opspec["pats"] = [((p[0] or [5]), (p[1] or [40]), p[2]) for p in opspec["pats"]]
+        body = {"args": ["i64"] * 3, "ops": []}
+
+        def f():
+            names, got, _ = lower_through_pass(SNAXAluAccelerator(), region_text(opspec, "snax_alu", body))
+            return check_setup(names, got, spec, opspec,
+                               lambda nm: ("c", 0) if nm == "alu_mode" else (("c", opspec["pats"][0][0][0]) if nm == "loop_bound_alu" else None))
+        run("snax_alu", "alu-pass", f, {"cfg": spec, "op": opspec})
+
+    for i in range(ctx.n(60, 800) * mult):
+        default = i % 4 == 0
+        spec = list(XDMA_DEFAULT) if default else gen_cfg(rng, xdma=True)
+        default = False   # snax_xdma is not among the accelerators snax-opt registers: no pass route
+        if not default and rng.random() < 0.75:
+            spec = [(f, sp, opts if "OChanMask" in opts else opts + ["OChanMask"]) for (f, sp, opts) in spec]
+        opspec = gen_op(rng, spec, valid_only=True)
+        if rng.random() < 0.7:
+            opspec["operands"] = [rng.choice("pc")] * len(spec) if rng.random() < 0.8 else ["z"] * len(spec)
+        kind = rng.choice(XDMA_BODIES[2:] if rng.random() < 0.8 else XDMA_BODIES)
+        resc = gen_rescale(rng)
+        case = {"cfg": spec, "op": opspec, "body": kind, "rescale": resc, "through_pass": default}
+        run("snax_xdma", "xdma", lambda: l2_xdma(spec, opspec, kind, resc, default), case,
+            lambda: xdma_klass(spec, opspec, None if kind in ("none", "testop") else []))
+
+    for i in range(ctx.n(50, 600) * mult):
+        spec, n, opspec, kind, zp, resc = gen_gemmx_l2(rng, i)
+        default = spec == GEMMX_DEFAULT and n == 8
+        case = {"cfg": spec, "n": n, "op": opspec, "body": kind, "zp": list(zp), "rescale": resc, "through_pass": default}
+        run("snax_gemmx", "gemmx", lambda: l2_gemmx(spec, n, opspec, kind, zp, resc, default), case)
+
+    # hwpe: values against names
+    fields, hv = impl_hwpe()
+    want = {"A": ("ptr", 0), "B": ("ptr", 1), "O": ("ptr", 2), "vector_length": ("dim0", 0), "nr_iters": ("one", 0), "mode": ("one", 0)}
+    ctx.count({"L2": "hwpe"}, True, "l2hwpe", "L2-hwpe")
+    if len(fields) != len(hv):
+        fails.append({"what": "count", "acc": "snax_hwpe_mult", "detail": {"fields": fields, "values": hv}, "klass": None})
+    for f, v in zip(fields, hv):
+        if want.get(f) != tuple(v):
+            swapped = f in ("vector_length", "nr_iters") and tuple(v) == want["nr_iters" if f == "vector_length" else "vector_length"]
+            fails.append({"what": "value", "acc": "snax_hwpe_mult", "detail": {"field": f, "want": want.get(f), "got": v},
+                          "klass": "hwpe_names_swapped" if swapped else None})
     return _dedup(fails)
 
 
 def _dedup(fails):
     seen, out = set(), []
     for f in fails:
-        k = (f["what"], f.get("acc"), f["klass"], f["detail"].get("field", "")[2:] if isinstance(f.get("detail"), dict) else "")
+        d = f.get("detail") or {}
+        fld = d.get("field", "")
+        k = (f["what"], f.get("acc"), f["klass"], re.sub(r"^[a-z]_", "", fld) if isinstance(fld, str) else "")
         if k not in seen:
             seen.add(k)
             out.append(f)
     return out
 
 
+def _run_case(f):
+    """re-run one recorded L2 case; returns (problems, klass)"""
+    acc = f.get("acc")
+    spec = [(a, b, c) for (a, b, c) in f.get("cfg", [])]
+    opspec = None
+    if "op" in f:
+        opspec = {"pats": [tuple(p) for p in f["op"]["pats"]], "operands": list(f["op"]["operands"])}
+    if acc == "snax_alu":
+        return l2_alu(spec, opspec), None
+    if acc == "snax_xdma":
+        return l2_xdma(spec, opspec, f["body"], f.get("rescale") or {"zpin": 0, "zpout": 0, "mult": [1], "shift": [0], "max": 127, "min": -128, "dr": 0},
+                       f.get("through_pass", False))
+    if acc == "snax_gemmx":
+        return l2_gemmx(spec, f["n"], opspec, f["body"], tuple(f["zp"]), f["rescale"], f.get("through_pass", False)), None
+    if acc == "snax_hwpe_mult":
+        fields, hv = impl_hwpe()
+        return [{"what": "value", "fields": fields, "values": hv}] if hv[3][0] == "one" and hv[4][0] == "dim0" else [], "hwpe_names_swapped"
+    return [], None
+
+
 def replay_known(ctx, entry):
-    return False
+    w = entry["witness"]
+    try:
+        probs, klass = _run_case(w)
+    except ValueError as e:   # SetupOp.verify_ (through the pass)
+        probs, klass = [{"what": "raised", "error": repr(e)}], entry["class"]
+    return bool(probs) and klass == entry["class"]
 
 
 def replay(ctx, obj):
@@ -425,11 +1066,13 @@ def replay(ctx, obj):
     if not f:
         print("no failing input recorded; broken obligations:", obj.get("no_longer_checks"))
         return 1
-    spec = [(a, b, c) for (a, b, c) in f["cfg"]]
-    opspec = {"pats": [tuple(p) for p in f["op"]["pats"]], "operands": f["op"]["operands"]}
-    print("cfg:", spec)
-    print("op :", opspec)
-    probs = l2_alu(spec, opspec) if f.get("acc") == "snax_alu" else []
+    for k in ("acc", "cfg", "n", "op", "body", "zp", "rescale"):
+        if k in f:
+            print(f"{k}:", f[k])
+    try:
+        probs, klass = _run_case(f)
+    except Exception as e:
+        probs, klass = [{"what": "raised", "error": repr(e)}], None
     for p in probs:
-        print("FAIL", p)
+        print("FAIL", p, "class:", klass)
     return 1 if probs else 0
